@@ -81,12 +81,16 @@ def run(ctx: Ctx) -> None:
         want = spec_of[id(c)][1]
         if out != ("ok", want):
             return "rendering differs from the documented line/indentation structure"
+        # every other way of obtaining the markup gives the same layout (default arguments)
+        m = trees.routes_disagree(build(c[0], share=True))
+        if m:
+            return "the ways of obtaining the markup (get_html_string, str, repr, _repr_html_, render, tagify) disagree: " + m
         return None
 
     differential(
         ctx, "Tag.get_html_string (validly nested trees)", cases,
         to_sx=lambda c: [2, to_sx(c[0]), c[1], S(c[2])],
-        impl=lambda c: safe_call(lambda: build(c[0]).get_html_string(c[1], c[2])),
+        impl=lambda c: safe_call(lambda: build(c[0], share=True).get_html_string(c[1], c[2])),
         decode=lambda m: res_decode(m, unS), oracle=oracle, nontrivial=nontriv, kind=lambda c: "tag")
 
     # ---- top-level lists -------------------------------------------------------------
@@ -108,6 +112,10 @@ def run(ctx: Ctx) -> None:
     def loracle(c, out):
         if out != ("ok", lspec_of[id(c)]):
             return "top-level list layout differs from the documented sibling rule"
+        memo: dict = {}
+        m = trees.routes_disagree(TagList(*[build(d, True, memo) for d in c[0]]))
+        if m:
+            return "the ways of obtaining a list's markup disagree: " + m
         return None
 
     differential(
